@@ -201,7 +201,7 @@ Print Assumptions C14_fill_end_refuted.
 Theorem C14_reduce_refuted : refutes w_reduce_empty = true /\ refutes w_reduce_start = true.
 Proof. exact reduce_refuted. Qed.
 Print Assumptions C14_reduce_refuted.
-Theorem C14_remove_duplicates_refuted : refutes w_dups_ne = true /\ refutes w_dups_from_end = true.
+Theorem C14_remove_duplicates_refuted : refutes w_dups_from_end = true.
 Proof. exact remove_duplicates_refuted. Qed.
 Print Assumptions C14_remove_duplicates_refuted.
 
